@@ -229,7 +229,7 @@ class Runner:
 
     def env_asan(self):
         e = dict(self.base_env)
-        e['ASAN_OPTIONS'] = 'detect_leaks=0:abort_on_error=0:allocator_may_return_null=1:detect_stack_use_after_return=0:' \
+        e['ASAN_OPTIONS'] = 'detect_leaks=0:abort_on_error=0:detect_stack_use_after_return=0:' \
                             'strict_memcmp=' + ('1' if self.strict_memcmp else '0')
         e['UBSAN_OPTIONS'] = 'print_stacktrace=1:halt_on_error=1'
         return e
@@ -274,7 +274,7 @@ class Runner:
             return r
         if 'AddressSanitizer' in text or 'runtime error:' in text or 'LeakSanitizer' in text:
             fr = innermost_frame(text)
-            m = re.search(r'AddressSanitizer: ([\w-]+)', text)
+            m = re.search(r'SUMMARY: AddressSanitizer: ([\w-]+)', text) or re.search(r'AddressSanitizer: ([\w-]+)', text)
             if m:
                 k = m.group(1)
             else:
@@ -287,7 +287,7 @@ class Runner:
                 r['cls'] = 'signal'
                 r['detail'] = k
                 r['site'] = fr[0] if fr else '?'
-            elif k in ('out-of-memory', 'allocation-size-too-big', 'calloc-overflow', 'requested'):
+            elif k in ('out-of-memory', 'requested'):
                 r['cls'] = 'oom'
                 r['site'] = hang_site(case)
             else:
